@@ -51,6 +51,21 @@ mod r#type;
 mod type_ref;
 mod union;
 mod value_accessor;
+#[cfg(feature = "verif-hooks")]
+#[doc(hidden)]
+#[allow(missing_docs)]
+pub mod verif_hooks {
+    pub use super::check::verif_hooks::*;
+    use super::TypeRef;
+
+    pub fn typeref_is_subtype(sup: &TypeRef, sub: &TypeRef) -> bool {
+        sup.is_subtype(sub)
+    }
+
+    pub fn typeref_is_nullable(ty: &TypeRef) -> bool {
+        ty.is_nullable()
+    }
+}
 
 pub use directive::Directive;
 pub use r#enum::{Enum, EnumItem};
